@@ -34,8 +34,22 @@ class Problem:
         self.metric_name = metric or t.choice(('euclidean', 'euclidean', 'manhattan', 'callable'))
         self.jitter = not t.flag(1, 8)
         self.X = M.gen_points(t, self.n, self.dim, self.dtype, self.jitter)
+        self.scale = 1.0
+        if np.dtype(self.dtype).kind == 'f' and t.flag(1, 10):
+            # the same geometry in other units (metres instead of nanometres, ...)
+            self.scale = t.choice((1e-9, 1e-4, 1e5))
+            self.X = np.ascontiguousarray((self.X.astype(np.float64) * self.scale).astype(self.dtype))
+            if len({r.tobytes() for r in self.X}) != self.n:
+                self.X = M.gen_points(t, self.n, self.dim, self.dtype, self.jitter)
+                self.scale = 1.0
         self.model_metric = M.METRICS[self.metric_name]
         self.l2g = M.local_to_global(lengths, self.N)
+
+    def tie_tol(self):
+        return 1e-6 if np.dtype(self.dtype) == np.float32 else 1e-9
+
+    def cut_tol(self):
+        return 4e-6 if np.dtype(self.dtype) == np.float32 else 1e-11
 
     def sut_metric(self):
         return M.sut_metric(self.metric_name)
@@ -49,7 +63,7 @@ class Problem:
         below / above all of them)."""
         t = ctx.tape
         kmax = min(max_k, self.n)
-        full, _ = M.greedy_run(self.X, self.model_metric, kmax, 0)
+        full, _ = M.greedy_run(self.X, self.model_metric, kmax, 0, tol=self.tie_tol())
         mode = t.draw(4)          # 0: k only, 1: cutoff only, 2: both, 3: both with None/inf spelling
         k = t.irange(1, kmax)
         cutoff = None
@@ -58,7 +72,15 @@ class Problem:
             j = t.draw(len(radii))
             hi = radii[j]
             lo = radii[j + 1] if j + 1 < len(radii) else 0.0
-            if hi > lo:
+            if hi > lo and t.flag(1, 3):
+                # just below a radius: the run has to continue although the radius is barely above the cutoff
+                eps = t.choice((1e-9, 1e-7, 5e-6, 1e-4))
+                cutoff = float(hi * (1 - eps))
+                if cutoff <= lo:
+                    cutoff = float(lo + (hi - lo) / 2)
+                else:
+                    ctx.hit('cutoff_just_below_radius')
+            elif hi > lo:
                 cutoff = float(lo + (hi - lo) * (1 + t.draw(3)) / 4.0)
             else:
                 cutoff = float(hi * 1.5 + 0.25)
@@ -73,7 +95,7 @@ class Problem:
 
     def describe(self):
         return dict(ranks=self.N, lengths=list(map(int, self.lengths)), dim=self.dim, dtype=self.dtype,
-                    metric=self.metric_name, jitter=self.jitter,
+                    metric=self.metric_name, jitter=self.jitter, scale=self.scale,
                     X=[[float(v) for v in row] for row in self.X[:12]] + (['...'] if self.n > 12 else []))
 
 
